@@ -10,6 +10,7 @@ import Libvna.Model.PValue
 import Libvna.Driver.PropDrv
 import Libvna.Driver.CalDrv
 import Libvna.Model.Leakage
+import Libvna.Model.Connect
 open Libvna
 
 structure DState where
@@ -44,6 +45,19 @@ def stepConvN (args : List String) : String :=
       match Libvna.ConvN.call CF.abs CF.conj CF.sqa fn m z0 n with
       | some r => if r.size == 0 then "ok" else "ok " ++ joinHex r.toList
       | none => "bad-op"
+    | _, _ => "bad-args"
+  | _ => "bad-args"
+
+/-- `uf rows cols <rows*cols bits: cell not known to be zero>`: the connectivity matrix of `build_connectivity_matrix`, row by row -/
+def stepUf (args : List String) : String :=
+  match args with
+  | rs :: cs :: rest =>
+    match rs.toNat?, cs.toNat? with
+    | some rows, some cols =>
+      if rest.length != rows * cols ∨ rest.any (fun b => b != "0" && b != "1") then "bad-args" else
+      let nz : Nat → Nat → Bool := fun r c => rest.getD (r * cols + c) "0" == "1"
+      let n := max rows cols
+      "ok" ++ (Libvna.UF.connAll nz rows cols n).foldl (fun acc b => acc ++ (if b then " 1" else " 0")) ""
     | _, _ => "bad-args"
   | _ => "bad-args"
 
@@ -141,6 +155,7 @@ def step (st : DState) (line : String) : DState × String :=
   | "convn" :: rest => (st, stepConvN rest)
   | "num" :: rest => (st, stepNum rest)
   | "lk" :: rest => (st, stepLk rest)
+  | "uf" :: rest => (st, stepUf rest)
   | "ff" :: rest => (st, Libvna.Drv.stepFF rest)
   | "npd" :: rest => (st, Libvna.Drv.stepNpd rest)
   | "iter" :: rest => (st, Libvna.Drv.stepIter rest)
